@@ -879,16 +879,28 @@ func addr(n *node) {
 	}
 }
 
+var nilPtr *int
+
 func deref(n *node) {
-	value := genValue(n.child[0])
+	v := genValue(n.child[0])
 	tnext := getExec(n.tnext)
 	i := n.findex
 	l := n.level
 
+	// Elem returns the zero Value for a nil pointer: raise the run-time error of
+	// compiled code instead, whatever is done with the result.
+	value := func(f *frame) reflect.Value {
+		r := v(f).Elem()
+		if !r.IsValid() {
+			_ = *nilPtr // Panics with "runtime error: invalid memory address or nil pointer dereference".
+		}
+		return r
+	}
+
 	if n.fnext != nil {
 		fnext := getExec(n.fnext)
 		n.exec = func(f *frame) bltn {
-			r := value(f).Elem()
+			r := value(f)
 			if r.Bool() {
 				getFrame(f, l).data[i] = r
 				return tnext
@@ -897,7 +909,7 @@ func deref(n *node) {
 		}
 	} else {
 		n.exec = func(f *frame) bltn {
-			getFrame(f, l).data[i] = value(f).Elem()
+			getFrame(f, l).data[i] = value(f)
 			return tnext
 		}
 	}
